@@ -186,8 +186,23 @@ func VerifC09_MintFee() {
 	feeDenom := e.native.MinUnit
 	e.bank.fund(e.owner, feeDenom, verifIntIn("bal", big.NewInt(0), verifPow2(100)))
 	amt := verifIntIn("amt", big.NewInt(1), verifPow2(64))
-	msg := &v1.MsgMintToken{Coin: sdk.Coin{Denom: tok.MinUnit, Amount: amt}, Receiver: "", Owner: e.owner.String()}
+	// the minted coins go to the owner (empty receiver), to the owner named explicitly, to a third party,
+	// or to a blocked address; the receiver may hold fee coins of its own
+	receiver, recvStr := e.owner, ""
+	switch verifChoice("receiver", 4) {
+	case 1:
+		recvStr = e.owner.String()
+	case 2:
+		receiver, recvStr = e.stranger, e.stranger.String()
+	case 3:
+		receiver, recvStr = e.stranger, e.stranger.String()
+		e.bank.blocked[e.stranger.String()] = true
+	}
+	e.bank.fund(e.stranger, feeDenom, verifIntIn("receiverBal", big.NewInt(0), verifPow2(100)))
+	msg := &v1.MsgMintToken{Coin: sdk.Coin{Denom: tok.MinUnit, Amount: amt}, Receiver: recvStr, Owner: e.owner.String()}
 	verifAssume(msg.ValidateBasic() == nil)
+	r0 := e.bank.get(e.stranger, feeDenom).BigInt()
+	m0 := e.bank.get(receiver, tok.MinUnit).BigInt()
 	o0 := e.bank.get(e.owner, feeDenom).BigInt()
 	c0 := e.bank.get(vModuleAddr(tkFeeCollector), feeDenom).BigInt()
 	f0 := e.bank.supplyOf(feeDenom).BigInt()
@@ -198,7 +213,7 @@ func VerifC09_MintFee() {
 	if err != nil {
 		verifCover("refused")
 		verifPrint(err.Error())
-		verifAssert(o1.Cmp(o0) == 0 && c1.Cmp(c0) == 0 && f1.Cmp(f0) == 0, "refused mint charges nothing")
+		verifAssert(o1.Cmp(o0) == 0 && c1.Cmp(c0) == 0 && f1.Cmp(f0) == 0 && e.bank.get(e.stranger, feeDenom).BigInt().Cmp(r0) == 0, "refused mint charges nothing")
 		return
 	}
 	verifCover("minted")
@@ -206,5 +221,7 @@ func VerifC09_MintFee() {
 	verifAssert(fee.Sign() >= 0 && tax.Sign() >= 0 && burned.Sign() >= 0, "fee parts are non-negative")
 	verifAssert(verifAdd(tax, burned).Cmp(fee) == 0, "fee = tax + burned")
 	verifAssert(e.bank.get(vModuleAddr(types.ModuleName), feeDenom).Sign() == 0, "no fee left in the module account")
-	verifAssert(e.bank.get(e.owner, tok.MinUnit).BigInt().Cmp(amt.BigInt()) == 0, "owner receives the minted coins")
+	verifAssert(verifSub(e.bank.get(receiver, tok.MinUnit).BigInt(), m0).Cmp(amt.BigInt()) == 0, "the receiver gets exactly the minted coins")
+	verifAssert(e.bank.get(e.stranger, feeDenom).BigInt().Cmp(r0) == 0, "the fee is charged to the owner, never to the receiver")
+	verifAssert(!e.bank.blocked[receiver.String()], "a blocked address never receives minted coins")
 }
